@@ -119,3 +119,57 @@ Section MP.
     apply list_eqb_nat_spec in Ew. apply list_eqb_nat_spec in Ev. congruence.
   Qed.
 End MP.
+
+(* ---- more measurement theorems (C02.D2, D1 at the level of the ensemble step) ---- *)
+Lemma list_eqb_nat_app a1 : forall b1 a2 b2, length a1 = length b1 ->
+  list_eqb_nat (a1 ++ a2) (b1 ++ b2) = list_eqb_nat a1 b1 && list_eqb_nat a2 b2.
+Proof.
+  induction a1 as [|x a1 IH]; intros [|y b1] a2 b2 H; simpl in *; try discriminate; [reflexivity|].
+  rewrite IH by lia. rewrite andb_assoc. reflexivity.
+Qed.
+
+Section MP2.
+  Context {K : Type} (O : Ops K) (L : Laws O).
+  Add Ring Kring3 : (law_ring O L).
+  Infix "+" := (kadd O). Infix "*" := (kmul O).
+
+  (* measuring qubit sets one after the other projects exactly as one joint measurement does: the lemma
+     behind the terminal-measurement fast path (one whole-system sample, columns extracted per operation) *)
+  Theorem seq_measure_joint sh ax1 ax2 v1 v2 (psi : list K) : length v1 = length ax1 ->
+    project O sh ax2 v2 (project O sh ax1 v1 psi) = project O sh (ax1 ++ ax2) (v1 ++ v2) psi.
+  Proof.
+    intros Hl. unfold project. generalize (enum sh). intros l. revert psi.
+    induction l as [|i l IH]; intros [|a psi]; simpl; try reflexivity.
+    rewrite IH. f_equal. unfold gets. rewrite map_app.
+    rewrite list_eqb_nat_app by (rewrite map_length; symmetry; exact Hl).
+    destruct (list_eqb_nat (map (get i) ax1) v1); destruct (list_eqb_nat (map (get i) ax2) v2); reflexivity.
+  Qed.
+
+  (* the order of two measurements does not matter *)
+  Theorem project_comm sh ax1 ax2 v1 v2 (psi : list K) :
+    project O sh ax2 v2 (project O sh ax1 v1 psi) = project O sh ax1 v1 (project O sh ax2 v2 psi).
+  Proof.
+    unfold project. generalize (enum sh). intros l. revert psi.
+    induction l as [|i l IH]; intros [|a psi]; simpl; try reflexivity.
+    rewrite IH. f_equal.
+    destruct (list_eqb_nat (gets i ax1) v1); destruct (list_eqb_nat (gets i ax2) v2); reflexivity.
+  Qed.
+
+  Lemma project_length sh ax v (psi : list K) : length psi = length (enum sh) -> length (project O sh ax v psi) = length psi.
+  Proof.
+    intros H. unfold project. rewrite map_length, combine_length. lia.
+  Qed.
+
+  (* one measurement step of the ensemble semantics (no confusion map) conserves the mass of a branch *)
+  Lemma flat_map_singleton {A B} (f : A -> B) (l : list A) : flat_map (fun v => [f v]) l = map f l.
+  Proof. induction l as [|x l IH]; simpl; [reflexivity|]. rewrite IH. reflexivity. Qed.
+
+  Theorem step_measure_mass sh key ax inv (b : branch (K:=K)) : length (bpsi b) = length (enum sh) ->
+    total_mass O (step O sh (MMeasure key ax inv []) b) = mass O b.
+  Proof.
+    intros Hl. unfold total_mass, mass. cbn [step confuse fold_left map fst snd].
+    rewrite flat_map_singleton, map_map. cbn [mass bw bpsi].
+    rewrite <- (measure_mass O L sh ax (bpsi b) Hl).
+    rewrite (ksum_mul_l O L). rewrite ?map_map. reflexivity.
+  Qed.
+End MP2.
